@@ -32,6 +32,19 @@ CLAIMED = {
     "C11": ("Coq proof: refinement of metadata calls to a (pid,format)->bytes map, frame and lifetime theorems; P-seq correspondence",
             "Round-trip, isolation, delete-one/delete-all/delete_object lifetime theorems over all histories; correspondence with concatenation-colliding (pid, format) pairs; reference dictionary oracle on the implementation.",
             "DESIGN.md section 6 C11", None),
+    "C02": ("Coq proof: _clean_algorithm sound/complete for all strings, per-call algorithm list independent of history (Algo.v), hasher fold (StreamModel.v); P-algo correspondence",
+            "clean_sound/clean_unique/clean_complete_anycase for every string, refine_copy_history for every history (the instance list is explicit state), consume_many for the digest values; "
+            "correspondence of _clean_algorithm and _refine_algorithm_list with the extracted functions; store_object histories on one instance checked against coreutils/hashlib digests.",
+            "DESIGN.md section 6 C02", None),
+    "C15": ("Coq proof: sharding comprehension = README layout for all depth/width/strings (Shard.v), reference-list byte format (RefsCodec.v); P-shard/P-layout correspondence",
+            "shard_eq_spec, shard_concat, shard_injective, add_exact, split_unparse over all inputs; whole store trees for sampled configurations compared with the extracted shard function and with an independent README-layout implementation.",
+            "DESIGN.md section 6 C15", None),
+    "C17": ("Coq proof: argument checks as total functions with iff-characterisations (Args.v), rejected/read-only calls issue no mutating operation (SeqProps); P-args correspondence",
+            "check_*_ok_iff, first-failure order, rejected_pure / readonly_pure / unknown_pid_pure for every world; grammar of invalid values (one and two at a time) compared class-by-class with the model, with byte-for-byte tree snapshots (incl. directories and mtimes) before/after.",
+            "DESIGN.md section 6 C17", None),
+    "C18": ("Coq proof: reference-list codec over arbitrary code points with abstract whitespace (RefsCodec.v), shard tokens drawn from the digest only; P-refs/P-checkstr correspondence",
+            "lines_codec, member_exact, remove_exact, prefix/suffix non-aliasing for all identifier lists; _is_string_in_refs_file/_update_refs_file/_check_string compared with the extracted functions on adversarial related identifiers; bystander search with independent hash-derived location check.",
+            "DESIGN.md section 6 C18", None),
 }
 
 REASON_PENDING = "check not yet registered in this snapshot: machinery under construction (see DESIGN.md section 11); not claimed until its check runs green on the unchanged tree"
